@@ -11,7 +11,6 @@ import (
 	"fmt"
 	"io"
 	"regexp"
-	"sort"
 	"strconv"
 	"strings"
 	"sync"
@@ -142,6 +141,14 @@ func c11LongName(r *VRand, total int) string {
 }
 
 var c11LongSizes = []int{52, 60, 63, 64, 65, 70, 120, 127, 128, 129, 140, 250, 253, 254, 255, 256, 260, 1000, 4100}
+
+// mostly 52..260 bytes, now and then ~1 000 or ~4 100
+func c11LongSize(r *VRand) int {
+	if r.Chance(0.04) {
+		return c11LongSizes[len(c11LongSizes)-1-r.Intn(2)]
+	}
+	return c11LongSizes[r.Intn(len(c11LongSizes)-2)]
+}
 
 // ---- the answer of the real matcher, raw ------------------------------------------------------
 
@@ -507,10 +514,10 @@ func c11RunSession(st *VStream, stats *VStats, r *VRand, bitLen int, nsets int, 
 			name = []string{"", ".", "..", "a", "com", "a.", ".a"}[r.Intn(7)]
 			stats.Inc("dm.probe.degenerate")
 		case 14: // a long sub-name of the pattern: many labels or 63-byte labels in front
-			name = c11LongName(r, c11LongSizes[r.Intn(len(c11LongSizes))]) + "." + bare
+			name = c11LongName(r, c11LongSize(r)) + "." + bare
 			stats.Inc("dm.probe.long_subname")
 		case 15: // a long glued prefix (no label boundary)
-			name = c11LongLabel(r, c11LongSizes[r.Intn(len(c11LongSizes))]) + bare
+			name = c11LongLabel(r, c11LongSize(r)) + bare
 			stats.Inc("dm.probe.long_glued")
 		case 16:
 			if len(ss.regs) > 0 {
@@ -759,7 +766,7 @@ func TestVerifC11Matcher(t *testing.T) {
 	st.Emit("alpha d", "valid="+c11ValidSet(ValidDomainChars.IsValidChar)+" | order=-")
 	st.Emit("alpha ac", "valid="+c11ValidSet(ahocorasick.IsValidChar)+" | order=-")
 
-	sessions, maxPat, nq := 150, 2000, 110
+	sessions, maxPat, nq := 120, 2000, 100
 	if VThorough() {
 		sessions, maxPat, nq = 800, 3000, 240
 	}
@@ -808,13 +815,8 @@ func TestVerifC11Matcher(t *testing.T) {
 	if VThorough() {
 		c11AcCases(st, stats, r, 120, 10000)
 	} else {
-		c11AcCases(st, stats, r, 40, 1500)
+		c11AcCases(st, stats, r, 25, 1500)
 	}
-	keys := make([]string, 0, len(stats.C))
-	for k := range stats.C {
-		keys = append(keys, k)
-	}
-	sort.Strings(keys)
 	stats.Write("c11dm")
 }
 
@@ -826,9 +828,9 @@ func TestVerifC11Concurrent(t *testing.T) {
 	stats := NewVStats()
 	st := VOpenStream("c11cc")
 	defer st.Close()
-	sessions := 40
+	sessions := 24
 	if VThorough() {
-		sessions = 160
+		sessions = 120
 	}
 	for s := 0; s < sessions; s++ {
 		log := logrus.New()
